@@ -357,3 +357,213 @@ def check_C16(chk: Check, replay) -> None:
             chk.sample({"definition": json.loads(re.sub(r"^\s*//.*$", "", defgen.to_upstream_json(d, random.Random(1)), flags=re.M)),
                         "specified_classes_v0": [c["schema"]["name"] for c in expected[(d["id"], d["valid"][0])]["classes"]]})
     chk.notes.append(f"{batches} generator runs, {total} (definition, version) modules compared")
+
+
+# =============================================================================== C04
+def live_types() -> dict:
+    import importlib
+    out = {}
+    tmod = importlib.import_module("kio.schema.types")
+    for k, v in vars(tmod).items():
+        if isinstance(v, type) and v.__module__ == tmod.__name__:
+            out[k] = [c.__name__ for c in v.__mro__[1:3]]
+        elif hasattr(v, "__supertype__"):
+            out[k] = ["NewType", v.__supertype__.__name__]
+    return out
+
+
+def class_model(c: dict) -> dict:
+    """The abstract model of one class: what C04 pins and compares (formatting, docstrings and import
+    order are not part of it)."""
+    return {"module": c["module"], "name": c["name"], "etype": c["etype"], "version": c["version"],
+            "flex": c["flex"], "api_key": c["api_key"], "header_name": c["header_name"],
+            "header_version": c["header_version"], "frozen": c["frozen"], "eq": c["eq"], "order": c["order"],
+            "kw_only": c["kw_only"], "slots": c["slots"],
+            "fields": [{"name": f["name"], "family": f["family"], "leaf_name": f["leaf_name"],
+                        "container": f["container"], "meta_keys": f["meta_keys"],
+                        **{k: f["fs"][k] for k in ("kind", "arr", "ktype", "nul", "inul", "tag", "hasd")},
+                        "dflt": f["fs"]["dflt"] if f["fs"]["hasd"] else project.NULL,
+                        "sub": f["fs"]["sub"]["name"] if f["fs"]["kind"] == "struct" else ""}
+                       for f in c["fields"]]}
+
+
+def full_model(snap: dict, index: dict, errors: list, types: dict) -> dict:
+    return {"classes": [class_model(c) for c in snap["classes"]],
+            "exports": {m["path"]: sorted(m.get("exports", [])) for m in snap["modules"]},
+            "index_keys": sorted([[k["key"], k["name"]] for k in index["keys"]]),
+            "index_entries": sorted([[e["name"], e["version"], e["etype"], e["path"]] for e in index["entries"]]),
+            "errors": errors, "types": {k: types[k] for k in sorted(types)}}
+
+
+PIN_PATH = os.path.join(kioenv.VERIF, "pins", "schema-3.9.0.json.gz")
+
+
+def families(snap: dict) -> list[list]:
+    """[api, etype, key, first version, last version, first flexible version] per family."""
+    fams: dict = {}
+    for c in snap["classes"]:
+        if c["etype"] == "nested":
+            continue
+        k = (c["mod_api"], c["mod_etype"])
+        f = fams.setdefault(k, {"key": c["api_key"], "vs": [], "flex": []})
+        f["vs"].append(c["mod_version"])
+        if c["flex"]:
+            f["flex"].append(c["mod_version"])
+    return [[a, e, f["key"], min(f["vs"]), max(f["vs"]), min(f["flex"]) if f["flex"] else -1]
+            for (a, e), f in sorted(fams.items())]
+
+
+def live_model() -> tuple[dict, dict]:
+    import importlib
+    from . import schema_snapshot
+    from kio.schema.errors import ErrorCode
+    snap = schema_snapshot.snapshot()
+    for m in snap["modules"]:
+        m["exports"] = list(getattr(importlib.import_module(m["path"].rsplit(".", 1)[0]), "__all__", ()))
+    model = full_model(snap, schema_snapshot.index_snapshot(),
+                       [[e.name, int(e), bool(e.retriable)] for e in ErrorCode], live_types())
+    model["families"] = families(snap)
+    return snap, model
+
+
+def check_pins(chk: Check, model: dict) -> None:
+    """Shipped = Pinned, decided by TLC (spec/PinCheck.tla) on the two abstract models."""
+    import gzip
+    if not os.path.exists(PIN_PATH):
+        raise Machinery(f"pin file {PIN_PATH} is missing (bin/make-pins creates it from a reviewed tree)")
+    pinned = json.load(gzip.open(PIN_PATH, "rt"))
+    p = os.path.join(chk.scratch, "pins.json")
+    # canary: a copy of one class with a renumbered tag / changed default must be reported
+    can_live = json.loads(json.dumps(model["classes"][100]))
+    can_pin = json.loads(json.dumps(can_live))
+    can_live["module"] = can_pin["module"] = "canary.module"
+    if can_pin["fields"]:
+        can_pin["fields"][0]["nul"] = not can_pin["fields"][0]["nul"]
+    else:
+        can_pin["flex"] = not can_pin["flex"]
+    with open(p, "w") as f:
+        json.dump({"live": dict(model, classes=model["classes"] + [can_live]),
+                   "pin": dict(pinned, classes=pinned["classes"] + [can_pin]),
+                   "families": model["families"]}, f, separators=(",", ":"))
+    res = tlc.run_tlc("PinCheck", env={"KIO_TRACE_FILE": p}, workers=1, timeout=3000, xmx="8g")
+    if not tlc.tlc_ok(res):
+        raise Machinery(f"PinCheck failed:\n{res['out'][-3000:]}")
+    reports = tlc.parse_json_lines(res["out"])
+    if not any(r["id"] == "canary.module" for r in reports):
+        raise Machinery("PinCheck did not report the canary difference")
+    chk.add_tlc("PinCheck", res, traces=len(model["classes"]))
+    live_by = {(c["module"], c["name"]): c for c in model["classes"]}
+    pin_by = {(c["module"], c["name"]): c for c in pinned["classes"]}
+    for r in reports:
+        if r["id"] == "canary.module":
+            continue
+        detail = ""
+        if r["kind"] == "class":
+            k = (r["id"], r["name"])
+            if k in live_by and k in pin_by:
+                detail = first_difference(pin_by[k], live_by[k])
+        chk.violation(f"shipped_differs_from_pin:{r['kind']}:{r['id']}:{r.get('name', '')}"[:120],
+                      f"{r['kind']} {r['id']} {r.get('name', '')}: {r['what']} {detail}",
+                      {"kind": "pin", "report": r})
+
+
+def check_C04(chk: Check, replay) -> None:
+    from . import reconstruct
+    chk.assumptions += [
+        "the upstream JSON definitions are not available offline: 'what 3.9.0 says' is represented by the "
+        "committed pin pins/schema-3.9.0.json.gz (abstract model of the release taken from the pinned commit) "
+        "and by spec/Pins.tla (per-family table); a defect already present in both the generator and the shipped "
+        "schema at the pinned commit is invisible here (it is C16's business)",
+        "the generator is exercised on definitions reconstructed from the shipped classes (inverse image of "
+        "spec/Codegen.tla); information the generator discards (about texts, mapKey, exact spellings) is not compared"]
+    chk.cov["rule"] = ("a case is one class of the shipped package: (1) its abstract model equals the pin (TLC, "
+                       "PinCheck); (2) the current generator run on the reconstructed 186 definitions regenerates it "
+                       "exactly; (3) spec/Codegen.tla derives the same class from the reconstruction; plus index, "
+                       "error table, custom types and per-family pins; distinct = distinct classes")
+    snap, model = live_model()
+    check_pins(chk, model)
+    try:
+        defs = reconstruct.reconstruct(snap)
+    except reconstruct.Irreconstructible as e:
+        chk.violation("shipped_schema_is_not_the_image_of_any_definition", str(e), {"kind": "reconstruct"})
+        return
+    # error table: regenerate errors.py from the shipped enum
+    from kio.schema.errors import ErrorCode
+    err_path = os.path.join(chk.scratch, "errors.txt")
+    with open(err_path, "w") as f:
+        for e in ErrorCode:
+            f.write(f"{int(e)} {e.name.upper()} {bool(e.retriable)} message of {e.name}\n")
+    # equivalent spellings, chosen by the seed (metamorphic: must regenerate the same model)
+    rng = random.Random(chk.seed + 4)
+    texts = {}
+    for d in defs:
+        texts[d["id"]] = defgen.to_upstream_json(vary_spelling(d, rng), rng)
+    expected, child, wire = run_generator(chk, defs, "c04", errors_file=err_path,
+                                          wire_per_class=1 if chk.tier == "quick" else 3, json_texts=texts)
+    # (3) + generator vs specification
+    compare_generated(chk, "C04", defs, expected, child)
+    if child["gen_error"]:
+        return
+    # (2) generated = shipped
+    gen_snap = {"classes": [], "modules": []}
+    for modname, m in sorted(child["modules"].items()):
+        if "classes" in m:
+            gen_snap["modules"].append({"path": modname, "exports": m["exports"]})
+            for c in m["classes"]:
+                if "describe_error" not in c:
+                    gen_snap["classes"].append(c)
+    gen_model = full_model(gen_snap, child["index"] if child["index"] and "error" not in child["index"]
+                           else {"keys": [], "entries": []},
+                           child["errors"] if isinstance(child["errors"], list) else [], child["types"])
+    live_by = {(c["module"], c["name"]): c for c in model["classes"]}
+    gen_by = {(c["module"], c["name"]): c for c in gen_model["classes"]}
+    for k in sorted(set(live_by) | set(gen_by)):
+        chk.count()
+        chk.distinct(k)
+        if k not in gen_by:
+            chk.violation(f"shipped_class_not_regenerated:{k[0]}:{k[1]}"[:120], f"{k}: shipped but not generated from "
+                          f"the reconstructed definitions", {"kind": "fixpoint", "class": list(k)})
+        elif k not in live_by:
+            chk.violation(f"generated_class_not_shipped:{k[0]}:{k[1]}"[:120], f"{k}: generated but not shipped",
+                          {"kind": "fixpoint", "class": list(k)})
+        elif live_by[k] != gen_by[k]:
+            chk.violation(f"regenerated_class_differs:{k[0]}:{k[1]}"[:120],
+                          f"{k}: {first_difference(live_by[k], gen_by[k])} (shipped vs regenerated)",
+                          {"kind": "fixpoint", "class": list(k)})
+    order_live = [(c["module"], c["name"]) for c in model["classes"]]
+    order_gen = [(c["module"], c["name"]) for c in gen_model["classes"]]
+    if sorted(order_live) == sorted(order_gen):
+        for mod in {m for m, _ in order_live}:
+            if [n for m, n in order_live if m == mod] != [n for m, n in order_gen if m == mod]:
+                chk.violation(f"class_order_differs:{mod}", f"{mod}: class order shipped vs regenerated differs",
+                              {"kind": "fixpoint"})
+    for part in ("exports", "index_keys", "index_entries", "errors", "types"):
+        if model[part] != gen_model[part]:
+            chk.violation(f"regenerated_{part}_differ", f"{part}: {first_difference(model[part], gen_model[part])}",
+                          {"kind": "fixpoint", "part": part})
+    if not child["gen_error"]:
+        nw = validate_wire(chk, child, wire, "c04")
+        chk.cov["traces_validated_against_impl"] += nw
+    chk.cov["exhaustive"] = True
+    chk.notes.append(f"{len(model['classes'])} classes in {len(snap['modules'])} modules, "
+                     f"{sum(len(c['fields']) for c in model['classes'])} fields, {len(model['index_keys'])} api keys, "
+                     f"{len(model['errors'])} error codes, {len(defs)} reconstructed definitions regenerated; "
+                     f"pin canary rejected")
+    chk.sample({"reconstructed_definition": json.loads(re.sub(r"^\s*//.*$", "", texts[defs[40]["id"]], flags=re.M))})
+
+
+def vary_spelling(d: dict, rng: random.Random) -> dict:
+    """Equivalent spellings upstream uses: hex vs decimal integer defaults."""
+    d = json.loads(json.dumps(d))
+
+    def walk(fs):
+        for f in fs:
+            if (f["hasdefault"] and f["tk"] == "prim" and f["t"] in ("int8", "int16", "int32", "int64", "uint16", "uint32")
+                    and f["spelling"] and f["spelling"].isdigit() and f["name"] not in ("ErrorCode", "PartitionErrorCode")
+                    and not f["name"].endswith("Ms") and rng.random() < 0.3):
+                f["spelling"] = hex(int(f["spelling"]))
+            walk(f["fields"])
+    walk(d["fields"])
+    for c in d["common"]:
+        walk(c["fields"])
+    return d
